@@ -42,7 +42,7 @@ EXCLUDE = {
     'photutils/isophote/fitter.py:EllipseFitter': 'the fitter updates the EllipseSample it was constructed with (its working object) by design',
     'photutils/isophote/isophote.py:IsophoteList': 'a list wrapper: sort / append / extend act on the wrapped list by design',
     'photutils/utils/depths.py:ImageDepth': 'path-correlated guards (`np.any(mask)` decides both the call and the copy): rejected by the path-insensitive analysis, '
-                                            'no mutation observed dynamically',
+                                            'covered by the dynamic sweep (API group ImageDepth: masks without and with True pixels)',
 }
 
 
